@@ -3,6 +3,7 @@ import A816.Model.OpsExpr
 import A816.Model.OpsCpu
 import A816.Model.OpsIps
 import A816.Model.OpsTable
+import A816.Model.OpsScan
 /-! Line-protocol driver: one operation per line on stdin, one canonical answer per line on stdout.
     This file contains the only `partial def` of the project (the I/O loop); no theorem imports it. -/
 open A816
@@ -22,6 +23,9 @@ def handle (line : String) : String :=
   | some r => r
   | none =>
   match Ops.handleTable ws with
+  | some r => r
+  | none =>
+  match Ops.handleScan ws with
   | some r => r
   | none => "bad-op"
 
